@@ -82,8 +82,9 @@ contract(MS_, "Shard.write", props=["C10", "C18", "C04"],
     ],
     raises={"Exception": [
         # a rejected write changes nothing (C18): count and record store as before
-        ("C18", "self.shard_info.number_of_examples == old(self.shard_info.number_of_examples)"),
-        ("C18", "implies(self._shard_writer is not None, self._shard_writer.nrec == old(self._shard_writer.nrec))"),
+        # (also C10 / C04: the recorded count stays the number of records the writer accepted)
+        (["C18", "C10", "C04"], "self.shard_info.number_of_examples == old(self.shard_info.number_of_examples)"),
+        (["C18", "C10", "C04"], "implies(self._shard_writer is not None, self._shard_writer.nrec == old(self._shard_writer.nrec))"),
     ]})
 
 contract("sedpack/io/shard/get_shard_writer.py", "get_shard_writer", props=["C10", "C18", "C04"],
@@ -178,7 +179,7 @@ contract(MF, CTX + ".write_example", props=["C10", "C11", "C18", "C04"],
     ],
     raises={"Exception": [
         # C18: a rejected write (the shard of `split` is still open) leaves the context consistent, counts unchanged
-    ] + [("C18", "implies(split in self._current_shards_progress and fprog(self, split).shard._shard_writer is not None, %s)" % q)
+    ] + [(["C18", "C10"], "implies(split in self._current_shards_progress and fprog(self, split).shard._shard_writer is not None, %s)" % q)
          for q in FINV_PARTS("self")] + [
         ("C18", "implies(old(split in self._current_shards_progress) and fprog(self, split).shard is old(fprog(self, split).shard)"
                 "        and fprog(self, split).shard._shard_writer is not None,"
